@@ -62,7 +62,9 @@ fn case_text(salt: i64, len: Option<usize>, ops: &[Op]) -> String {
 }
 
 /// run one sequence on the real bus; every observation is checked against the oracle
-fn run_case(salt: i64, len: Option<usize>, ops: &[Op], st: &mut Stream) -> Outcome {
+/// `probe = false`: the accessors (`pending_frames`, `is_exhausted`, the backlog hook) are never called between the
+/// operations; the frame and pull-count oracles still run (an accessor must not be what keeps the state right)
+fn run_case(salt: i64, len: Option<usize>, ops: &[Op], st: &mut Stream, probe: bool) -> Outcome {
     let log = Rc::new(RefCell::new(Vec::<i64>::new()));
     let mut bus: Option<Bus<Src>> = Some(Src { salt, len, log: log.clone() }.bus());
     let mut outs: Vec<Option<Output<Src>>> = Vec::new();
@@ -166,10 +168,10 @@ fn run_case(salt: i64, len: Option<usize>, ops: &[Op], st: &mut Stream) -> Outco
         // ---- observations after the op
         let pulls = log.borrow().len();
         let src_done = len.map(|l| pulls >= l).unwrap_or(false);
-        let backlog = bus.as_ref().map(|b| guarded(|| b.verif_backlog_len()));
+        let backlog = if probe { bus.as_ref().map(|b| guarded(|| b.verif_backlog_len())) } else { None };
         let live = or.live_ids();
         let mut pend_s: Vec<String> = Vec::new();
-        for &i in &live {
+        for &i in live.iter().filter(|_| probe) {
             let o = outs[i].as_ref().unwrap();
             let p = guarded(|| o.pending_frames());
             // "its pending count equals the number of frames already pulled from the source that it has not yet received"
@@ -216,7 +218,8 @@ fn run_case(salt: i64, len: Option<usize>, ops: &[Op], st: &mut Stream) -> Outco
 }
 
 fn emit(salt: i64, len: Option<usize>, ops: &[Op], st: &mut Stream) {
-    let o = run_case(salt, len, ops, st);
+    let o = run_case(salt, len, ops, st, true);
+    if ops.len() <= 200 { let _ = run_case(salt, len, ops, st, false); st.count("case_also_run_without_accessor_calls"); }
     for op in ops { st.count(match op { Op::Send => "op_send", Op::Next(_) => "op_next", Op::Drop(_) => "op_drop", Op::DropBus => "op_drop_bus_handle", Op::Until(_) => "op_until_exhausted" }); }
     st.count(if len.is_some() { "finite_source" } else { "infinite_source" });
     st.case(&o.op_line, &o.obs_line, o.nontrivial, o.evals);
